@@ -578,11 +578,11 @@ def pvalidate(events, chk=None, name="trace", batch=400, procs=None, timeout=150
     return rejected, done
 
 
-def validate(chk, recipes, name, batch=400):
+def validate(chk, recipes, name, batch=400, procs=None):
     """Record events from the real code, let TLC judge them, file violations.
     Returns (events, rejected)."""
     events = record(recipes)
-    rejected, n = pvalidate(events, chk=chk, name=name, batch=batch)
+    rejected, n = pvalidate(events, chk=chk, name=name, batch=batch, procs=procs)
     chk.validated += n
     cnt = chk.notes.setdefault("events_by_kind", {})
     for ev in events:
